@@ -1665,6 +1665,9 @@ class Evaluator:
             res = atom(("call", "numpy.array", (atom(("list", tuple(args[1] for _ in range(int(args[0].const_value()))))),), ()))
             self.emit("call", node, callee=("lib", "numpy.array"), fi=None, args=res.single_atom()[2], kwargs=(), result=res)
             return res
+        if d == "len" and len(args) == 1 and not kwargs and (args[0].single_atom() or ("",))[0] == "ite":
+            ia_ = args[0].single_atom()   # len(a if c else b) == len(a) if c else len(b)
+            return T.mk_ite(ia_[1], self._lib_call("len", [ia_[2]], {}, st, node), self._lib_call("len", [ia_[3]], {}, st, node))
         if d == "len" and len(args) == 1 and not kwargs:
             # len(np.array(x)) == len(list(x)) == len(x);  len(x + c) == len(c * x) == len(x) for elementwise arithmetic with a scalar
             x = args[0]
@@ -1691,6 +1694,12 @@ class Evaluator:
             if la is not None and la[0] in ("tuple", "list") and 1 <= len(la[1]) <= 6:
                 # map(f, (a, b)) consumed here: [f(a), f(b)]
                 return atom(("list", tuple(self._call_value(args[0], [x], {}, st, node) for x in la[1])))
+        if d in ("numpy.ravel", "numpy.copy") and len(args) == 1 and not kwargs and (args[0].single_atom() or ("",))[0] in ("call", "mcall", "sub", "getattr", "param", "attr", "ite"):
+            if d == "numpy.ravel":
+                # np.ravel(x) is x.ravel() for arrays
+                res = atom(("mcall", args[0], "ravel", (), ()))
+                self.emit("call", node, callee=("mcall", "ravel"), fi=None, recv=args[0], args=(), kwargs=(), result=res)
+                return res
         if d == "isinstance" and len(args) == 2 and not kwargs:
             ta = args[1].single_atom()
             if ta is not None and ta[0] == "tuple" and 1 <= len(ta[1]) <= 6:
@@ -1864,6 +1873,8 @@ class Evaluator:
         if ra is not None and ra[0] == "global" and not self._is_module_var(ra[1]):
             return self._call_dotted(ra[1] + "." + name, args, kwargs, st, node)
         ci = self._obj_class(recv)
+        if name == "reshape" and len(args) == 1 and not kwargs and (args[0].single_atom() or ("",))[0] == "tuple":
+            args = list(args[0].single_atom()[1])   # x.reshape((a, b)) is x.reshape(a, b)
         res = atom(("mcall", recv, name, tuple(args), _kw(kwargs)))
         if name in _ARRAY_REDUCTIONS and ci is None and (ra is None or ra[0] not in ("global", "dict", "list", "tuple", "set")):
             # x.sum(axis=1) is numpy.sum(x, axis=1) for arrays, frames and series alike: one normal form for both spellings
